@@ -23,7 +23,8 @@ describe(
     "which the inverse is transposed in (I-B)^-T Omega (I-B)^-1; conditional mean/covariance formulas pair the right blocks; "
     "regression coefficients are stored in the order of the regressors with the intercept first; for every method with an `inplace` "
     "flag in the Gaussian modules, the inplace=True specialisation stores the computed result into self and the inplace=False one "
-    "leaves self untouched.",
+    "leaves self untouched; after a Gaussian's covariance is replaced its cached precision matrix is dropped, re-derived from the new "
+    "covariance, or taken from the distribution the covariance came from, on the same path.",
     ["the matrix identities' numeric values", "least-squares fitting done by scikit-learn", "positive-definiteness"],
 )
 
